@@ -362,6 +362,33 @@ def run(ctx):
                 twin = None
             if twin is not None and not (twin == o):
                 ctx.violation(what="equal observable state, different slack", type=kind, observed="not equal", required="equal")
+    # long waveforms (NumPy's own unpickling treats array payloads of more than about 1000 bytes differently from short ones under
+    # protocols 2-4: the array is rebuilt on top of the pickle's bytes): the copy shows the same state and can be grown, loaded and
+    # given a larger capacity exactly like the original
+    from nitypes.waveform import AnalogWaveform as _AW, ComplexWaveform as _CW, Spectrum as _SP
+    for n in (125, 126, 130, 300, 2000) if ctx.quick else (63, 64, 125, 126, 127, 130, 250, 251, 300, 1000, 1001, 2000, 70000):
+        for kind_, mk in (("analog", lambda: _AW.from_array_1d(np.arange(n, dtype=np.float64) * 0.5, np.float64)),
+                          ("analog", lambda: _AW.from_array_1d(np.arange(n, dtype=np.int16), np.int16)),
+                          ("complex", lambda: _CW.from_array_1d(np.arange(n, dtype=np.complex128) * (1 + 2j), np.complex128)),
+                          ("spectrum", lambda: _SP.from_array_1d(np.arange(n, dtype=np.float64) + 0.25, np.float64)),
+                          ("digital", lambda: DigitalWaveform.from_lines(np.arange(3 * n, dtype=np.uint8).reshape(n, 3) % 2, np.uint8))):
+            r = outcome(mk)
+            if r[0] != "ok":
+                continue
+            lw = r[1]
+
+            def lobs(x, k=kind_):
+                view = x.raw_data if k in ("analog", "complex") else x.data
+                return (str(x.dtype), view.shape, view.tobytes(), dict(x.extended_properties))
+
+            def lgrow(c, k=kind_):
+                extra = c.capacity - c.sample_count + 1
+                c.append(np.zeros((extra, c.signal_count), c.dtype) if k == "digital" else np.zeros(extra, c.dtype))
+
+            def lcap(c):
+                c.capacity = c.capacity + 7
+            check_value(ctx, f"long-waveform-grow:{kind_}:{n}", lw, lobs, lgrow, must_mutate=True)
+            check_value(ctx, f"long-waveform-capacity:{kind_}:{n}", lw, lobs, lcap, must_mutate=True)
     # Spectrum frequencies given to the constructor in every spelling of zero and of a float (the copy has the same value AND type)
     from nitypes.waveform import Spectrum
     for sf in (0.0, -0.0, np.float64(0.0), np.float64(-0.0), np.float64(2.5), np.float32(0.5), 3, True, 1e-320):
